@@ -26,6 +26,7 @@ pub mod c19;
 pub mod c20;
 pub mod common;
 pub mod weak;
+pub mod wide;
 
 #[derive(Clone, Copy)]
 pub struct PropDef {
